@@ -55,9 +55,7 @@ def fidelity_problem(cs, T, data: bytes, text: str):
             return None
         return {"observed": f"dumps produced {len(out)} bytes", "expected": f"{n} bytes (as many as parsing consumed)", "dump": out.hex()}
     mask = bytearray(n)
-    if n > len(data):
-        data = data + bytes(n - len(data))     # the reader sought past the end (tail padding): those bytes carry nothing
-    for i in range(min(n, len(data))):
+    for i in range(min(n, len(data))):        # bytes past the end of the input (the reader sought into tail padding) carry nothing
         for b in range(8):
             flipped = bytearray(data)
             flipped[i] ^= 1 << b
@@ -66,7 +64,7 @@ def fidelity_problem(cs, T, data: bytes, text: str):
                 return None             # NaN payloads are outside the statement
             if o != base:
                 mask[i] |= 1 << b
-    want = bytes(d & m for d, m in zip(data[:n], mask))
+    want = bytes(d & m for d, m in zip(data[:n] + bytes(max(0, n - len(data))), mask))
     if out != want:
         diff = [i for i in range(n) if out[i] != want[i]]
         return {"observed": "dump " + out.hex(), "expected": "input on data-carrying bits, zero elsewhere: " + want.hex(),
